@@ -183,7 +183,8 @@ func c15E2E(r *Rng, id string) Case {
 		cols = append(cols, PCol{Name: c.n, Type: c.t, NotNull: r.Bool(), Array: strings.HasSuffix(c.t, "[]")})
 	}
 	t := PTable{Name: "authors", Cols: cols}
-	u := PTable{Name: "books", Cols: append([]PCol{}, cols...)}
+	// the neighbour that must stay untouched: same column list, and a NAME THAT CONTAINS the target's name
+	u := PTable{Name: r.Pick([]string{"books", "coauthors", "authors_archive"}), Cols: append([]PCol{}, cols...)}
 	for i := range u.Cols {
 		if i > 0 {
 			u.Cols[i].NotNull = r.Bool()
@@ -278,7 +279,7 @@ func c15E2E(r *Rng, id string) Case {
 			if kind == "column" {
 				for i, v := range bW.all() {
 					if v != bB.all()[i] {
-						problems = append(problems, fmt.Sprintf("package %s: column override for authors.%s changed books.%s: surface %d is %q, was %q", pkg, target.Name, target.Name, i, v, bB.all()[i]))
+						problems = append(problems, fmt.Sprintf("package %s: column override for authors.%s changed %s.%s: surface %d is %q, was %q", pkg, target.Name, u.Name, target.Name, i, v, bB.all()[i]))
 					}
 				}
 			}
@@ -359,8 +360,8 @@ func modelFieldType(sum PkgSummary, settings config.CombinedSettings, t PTable, 
 				ok = false
 			}
 		}
-		// authors and books have the same column list: tell them apart by the struct name's first letter
-		if ok && strings.HasPrefix(strings.ToLower(st.Name), t.Name[:1]) {
+		// the two tables have the same column list: tell their model structs apart by name
+		if ok && modelNameMatches(st.Name, t.Name) {
 			for _, f := range st.Fields {
 				if f.Name == golang.StructName(c.Name, settings) {
 					return f.Type
@@ -439,8 +440,8 @@ func runC15(r *Rng, n int, tier string) {
 		e := envSpec{Engine: "postgresql", Default: r.Pick([]string{"public", "public", "s1"}), Schemas: schemas}
 		dt := r.Pick([]string{"text", "pg_catalog.int8", "uuid", "jsonb", "e1", r.Pick(pgSp)})
 		c := colSpec{Name: r.Pick([]string{"id", "name", "c"}), DataType: dt, NotNull: r.Bool(), IsArray: r.Chance(20), Length: -1, HasTable: r.Chance(85)}
-		c.TSchema = r.Pick([]string{"", "public", "s1"})
-		c.TName = r.Pick([]string{"t", "u"})
+		c.TSchema = r.Pick([]string{"", "public", "s1", "republic"})
+		c.TName = r.Pick([]string{"t", "u", "tt", "at"})
 		no := 1 + r.Intn(4)
 		for k := 0; k < no; k++ {
 			o := J{"goTypeName": r.Pick(goTypes), "dbType": "", "nullable": false, "column": "", "columnName": "", "table": J{"catalog": "", "schema": "", "rel": ""}}
@@ -453,7 +454,7 @@ func runC15(r *Rng, n int, tier string) {
 			} else {
 				o["column"] = "x"
 				o["columnName"] = r.Pick([]string{"id", "name", "c"})
-				o["table"] = J{"catalog": "", "schema": r.Pick([]string{"public", "s1"}), "rel": r.Pick([]string{"t", "u"})}
+				o["table"] = J{"catalog": "", "schema": r.Pick([]string{"public", "s1", "republic", "s"}), "rel": r.Pick([]string{"t", "u", "tt", "at"})}
 			}
 			e.Overrides = append(e.Overrides, o)
 		}
@@ -467,4 +468,9 @@ func runC15(r *Rng, n int, tier string) {
 	for i := 0; i < ne; i++ {
 		emit(c15E2E(r, fmt.Sprintf("e2e-%d", i)))
 	}
+}
+
+func modelNameMatches(structName, table string) bool {
+	want := map[string]string{"authors": "Author", "books": "Book", "coauthors": "Coauthor", "authors_archive": "AuthorsArchive"}[table]
+	return structName == want
 }
